@@ -488,7 +488,7 @@ theorem step_view {cfg : Cfg} {s s' : State} {a : Action} (hs : step cfg s a = s
 
 /-! ### the clock -/
 
-theorem evictAll_clock (s : State) (st : Store) (ks : List Hash) : (evictAll s st ks).clock = s.clock := by
+theorem evictAll_clock_t (s : State) (st : Store) (ks : List Hash) : (evictAll s st ks).clock = s.clock := by
   induction ks generalizing s with
   | nil => rfl
   | cons k rest ih => unfold evictAll; split <;> simp [ih]
@@ -534,7 +534,7 @@ theorem clientStep_clock {cfg : Cfg} {s s' : State} {t : Tid} {ch : Choice}
       · simp at hr
       · split at hr
         · simp at hr
-        · simp only [Option.some.injEq] at hr; subst hr; simp [evictAll_clock]
+        · simp only [Option.some.injEq] at hr; subst hr; simp [evictAll_clock_t]
     · simp at hr
   case waitRecv => intro id _ _ hr; exact stWaitRecv_clock _ _ _ hr
   all_goals (intros; simp)
